@@ -22,12 +22,12 @@ def run(tier, scratch, t0, replay=None):
     rng = K.rng_for("C11")
     seeds = []
     corp = K.corpus_files()
-    small = [p for p in corp if os.path.getsize(p) < (3000 if quick else 20000)]
+    small = [p for p in corp if os.path.getsize(p) < (3000 if quick else 8000)]
     by_dir = {}
     for p in small:
         by_dir.setdefault(os.path.dirname(p), []).append(p)
     for d, ps in sorted(by_dir.items()):
-        seeds += rng.sample(ps, min(len(ps), 2 if quick else 12))
+        seeds += rng.sample(ps, min(len(ps), 2 if quick else 4))
     # the dropbox-encrypted file goes through a reader of its own (xdis.dropbox): always a seed
     seeds += [p for p in corp if "dropbox" in p and p not in seeds]
     # fresh seeds from every reference interpreter (incl. 3.13, which the corpus lacks)
@@ -53,7 +53,7 @@ def run(tier, scratch, t0, replay=None):
     def job(i, isolate=False):
         wd = os.path.join(scratch.root, "hostile-%d%s" % (i, "-iso" if isolate else ""))
         a = {"isolate": isolate, "seeds": parts[i], "seed": K.get_seed(), "part": i, "workdir": wd,
-             "prefix_limit": 400 if quick else 16384, "positions": 90 if quick else 16384, "insdel": 30 if quick else 400,
+             "prefix_limit": 400 if quick else 2048, "positions": 90 if quick else 2048, "insdel": 30 if quick else 100,
              "nonbytecode": i == 0 or hosts_for_part[i] != K.MAIN_HOST, "adversarial": i in (0, 1, 2), "big": not quick}
         return K.run_agent(hosts_for_part[i], "hostile", a, scratch.root, "hostile-%d%s" % (i, "i" if isolate else ""), timeout=2400 if tier == "quick" else 14000)
 
